@@ -12,7 +12,9 @@
     * `move_leaves_empty_valid`       move construction / assignment: value transferred, same block (no element copied), source empty and valid
     * `self_assign_id`, `swap_exchanges`
     * `view_ctor_copies`              `array(view)` / `+view` / `view.decay()`: the view's extents and its elements in canonical order, in a fresh block
-    * `abs_step_views_partial`        what is proved for the other operations whose source is a view (see the comment there)
+    * `abs_step_views`                `array(view)`, `A = view` (both overloads) for views of any layout: the documented value of the view
+    * `abs_step_conv_stdswap`         assignment from another element type, `std::swap`
+    * `abs_step_lists`                construction / assignment from nested initializer lists and iterator ranges, in place or not
 -/
 import MultiProofs.OwnStep
 import MultiProofs.OwnObs
@@ -24,8 +26,9 @@ open Own
 variable {α : Type}
 
 /-- **refinement, one step.**  For every operation of `VOp` (default / extensions / fill / copy (also from another element type,
-    unary `+`) / iterator-range construction, move construction, move and copy assignment over any prior state, swap, clear, reshape,
-    assign(extensions, value), rvalue reextent, reextent to the current extensions, element write, destruction) executed in its domain
+    unary `+`) / iterator-range construction / construction from a view, move construction, move and copy assignment over any prior
+    state, assignment from a view (both overloads), from another element type, from nested lists / ranges, swap, `std::swap`, clear, reshape,
+    assign(extensions, value), the three reextent overloads, element write, destruction) executed in its domain
     on a pool satisfying the invariant: the invariant holds afterwards and the value of the resulting pool is the documented one. -/
 theorem abs_step (cfg : Cfg α) (p : Pool α) (hi : Inv p) (op : VOp α) (hd : op.InDom p) :
     Inv (step cfg p op) ∧ absPool (step cfg p op) = specStep cfg (absPool p) op :=
@@ -173,30 +176,46 @@ theorem view_ctor_copies (h : Heap α) (s : Nat) (scs : List (Cell α)) (hs : Li
   · exact False.elim hf
   · exact hf
 
-/-- **the other operations whose source is a view** (`A = view` in both overloads), assignment from an
-    array of another element type, `operator=(initializer_list)` / `assign(first,last)` in place, and `std::swap`.
-    PARTIAL.  Full statement: `abs_step` for these operations too, with `specStep` = "extensions of the view (collapsed), elements
-    `[src[view's index map idx] | idx in canonical order]`".
-    Proved here: the constituents — construction from a range of values (`VOp.range`), move construction / assignment
-    (`std::swap` = move-construct + two move-assignments, `A = view` with other extensions = construct + move-assign), copy assignment
-    in place and with reallocation (the three branches of assignment from another element type are `cassign` in place,
-    `reshape` + `cassign` in place, `copy` + `massign`), and `reshape`.
-    Proved in addition: construction from a view (`view_ctor_copies`), hence `A = view` with other extensions and another element
-    count (this theorem: it IS construct + move-assign + destroy).
-    Missing: the element-wise copy through two `elements()` iterators INTO AN EXISTING array / slice as a map on cells (`Own.copyElems`):
-    the source side is `Own.elemAddrs_eq`, the scatter lemma for `copyAddrs` on a destination address list other than `0, 1, 2, …`
-    is not proved.  These operations are therefore covered by the
-    correspondence run (both element types, views of up to three chained operations, sources of D and D+1) and by the reference model
-    inside the harness, not by a theorem. -/
-theorem abs_step_views_partial (cfg : Cfg α) (h : Heap α) (self : Arr) (sb : Option BlockId) (v : View)
-    (hne : Exts.eqv self.exts v.exts = false) (hcount : self.numElements ≠ Exts.numElements v.exts) :
-    -- `A = view` with other extensions and another element count is exactly: construct a temporary from the view, move-assign, destroy
-    rangeAssign h self sb v =
-      (dtor (moveAssign (viewCtor h sb v).1 self (viewCtor h sb v).2).1 (moveAssign (viewCtor h sb v).1 self (viewCtor h sb v).2).2.2,
-       (moveAssign (viewCtor h sb v).1 self (viewCtor h sb v).2).2.1) ∧
-    viewAssign h self sb v = rangeAssign h self sb v := by
-  unfold rangeAssign viewAssign
-  simp [hne, hcount]
+/-- **operations whose source is a view of any layout**: `array(view)` / `+view` / `view.decay()` (`vctor`), `A = view` through
+    `operator=(const_subarray const&)` (`vassign`) and through `operator=(Range&&)` with its reshape shortcut (`rassign`), the view being
+    any chain `ops` of in-domain view-forming operations of C01 (index, sliced, range, strided, dropped, taked, rotated, unrotated,
+    transposed, reversed, diagonal, partitioned, chunked, flatted, call syntax) on the array in slot `src`, over any prior state of the
+    target (equal extensions: element-wise in place; equal element count: reshape, then in place; otherwise: temporary + move
+    assignment) — README: the view must not alias the target (`k ≠ src`).  The target's value becomes the documented value of the view:
+    the composed shape (collapsed) and the source's elements at the composed index map, in canonical order (`viewVal`); the source and
+    every other array keep their values; the pool invariant (validity, pairwise distinct blocks) holds. -/
+theorem abs_step_views (cfg : Cfg α) (p : Pool α) (hi : Inv p) (k src : Nat) (ops : List Op) :
+    ((VOp.vctor k src ops).InDom p → Inv (step cfg p (.vctor k src ops)) ∧
+      absPool (step cfg p (.vctor k src ops)) = upd (absPool p) k ((absPool p src).map fun x => viewVal x ops)) ∧
+    ((VOp.vassign k src ops).InDom p → Inv (step cfg p (.vassign k src ops)) ∧
+      absPool (step cfg p (.vassign k src ops)) = upd (absPool p) k ((absPool p src).map fun x => viewVal x ops)) ∧
+    ((VOp.rassign k src ops).InDom p → Inv (step cfg p (.rassign k src ops)) ∧
+      absPool (step cfg p (.rassign k src ops)) = upd (absPool p) k ((absPool p src).map fun x => viewVal x ops)) :=
+  ⟨fun hd => step_refines cfg p hi _ hd, fun hd => step_refines cfg p hi _ hd, fun hd => step_refines cfg p hi _ hd⟩
+
+/-- **assignment from an array of another element type** (same extensions: in place; same element count: reshape + in place; otherwise
+    convert into a temporary and move-assign) and **`std::swap`** (move construction + two move assignments): the documented values -/
+theorem abs_step_conv_stdswap (cfg : Cfg α) (p : Pool α) (hi : Inv p) (j k : Nat) :
+    ((VOp.convassign k j).InDom p → Inv (step cfg p (.convassign k j)) ∧
+      absPool (step cfg p (.convassign k j)) = upd (absPool p) k (absPool p j)) ∧
+    ((VOp.stdswap j k).InDom p → Inv (step cfg p (.stdswap j k)) ∧
+      absPool (step cfg p (.stdswap j k)) = upd (upd (absPool p) j (absPool p k)) k (absPool p j)) :=
+  ⟨fun hd => step_refines cfg p hi _ hd, fun hd => step_refines cfg p hi _ hd⟩
+
+/-- **construction and assignment from nested initializer lists / iterator ranges** (`array A{…}`, `A = {…}`, `A.assign(first, last)`)
+    with `count` sub-arrays of extensions `inner` and the values `vals`, over any prior state: exactly the requested contents.  With the
+    same number of rows and the same inner extensions the assignment happens in place, row by row (`ref::assign(first)`), and the array
+    keeps its block and its extensions (index bases); otherwise the array is rebuilt from the range (temporary + move assignment) and
+    gets the zero-based extensions of the range; the empty initializer list clears (`listVal`). -/
+theorem abs_step_lists (cfg : Cfg α) (p : Pool α) (hi : Inv p) (k : Nat) (count : Int) (inner : List Ext) (vals : List α) :
+    ((VOp.il k count inner vals).InDom p → Inv (step cfg p (.il k count inner vals)) ∧
+      absPool (step cfg p (.il k count inner vals)) = upd (absPool p) k (some ⟨collapse (rangeExts count inner), vals.map some⟩)) ∧
+    ((VOp.assignr k count inner vals).InDom p → Inv (step cfg p (.assignr k count inner vals)) ∧
+      absPool (step cfg p (.assignr k count inner vals)) = upd (absPool p) k ((absPool p k).map fun x => listVal x count inner vals)) ∧
+    ((VOp.ilassign k count inner vals).InDom p → Inv (step cfg p (.ilassign k count inner vals)) ∧
+      absPool (step cfg p (.ilassign k count inner vals)) =
+        upd (absPool p) k ((absPool p k).map fun x => if count = 0 then emptyVal x.exts.length else listVal x count inner vals)) :=
+  ⟨fun hd => step_refines cfg p hi _ hd, fun hd => step_refines cfg p hi _ hd, fun hd => step_refines cfg p hi _ hd⟩
 
 /-! ### the hypotheses are satisfiable (non-vacuity) -/
 
@@ -207,6 +226,27 @@ example :
     (specRun cfg (fun _ => none) ops 0).map (·.elems) = some [some 7, some 7, some 7, some 7, some 7, some 9] ∧
     (specRun cfg (fun _ => none) ops 2).map (·.elems) = some (List.replicate 6 (some 7)) ∧
     (specRun cfg (fun _ => none) ops 1).map (·.exts) = some [⟨0, 0⟩, ⟨0, 0⟩] := by
+  decide
+
+/-- views: `A = [[1,2,3],[4,5,6]]`; `B(A.transposed())`; `C(A(all, {1,3}))`; `B = A.rotated()[1]`-like chains — documented values -/
+example :
+    let cfg : Cfg Int := ⟨true, 0⟩
+    let ops : List (VOp Int) := [.range 0 2 [⟨0, 3⟩] [1, 2, 3, 4, 5, 6], .vctor 1 0 [.transposed], .vctor 2 0 [.call [.all, .rng 1 3]],
+      .vctor 3 0 [.index 1], .rassign 3 0 [.transposed, .index 2]]
+    (specRun cfg (fun _ => none) ops 1).map (·.exts) = some [⟨0, 3⟩, ⟨0, 2⟩] ∧
+    (specRun cfg (fun _ => none) ops 1).map (·.elems) = some [some 1, some 4, some 2, some 5, some 3, some 6] ∧
+    (specRun cfg (fun _ => none) ops 2).map (·.elems) = some [some 2, some 3, some 5, some 6] ∧
+    (specRun cfg (fun _ => none) ops 3).map (·.exts) = some [⟨0, 2⟩] ∧
+    (specRun cfg (fun _ => none) ops 3).map (·.elems) = some [some 3, some 6] := by
+  decide
+
+/-- lists: a rebased 2×2 array assigned `{{1,2},{3,4}}` keeps its index bases (in place); assigned `{{1,2,3}}` it becomes 1×3 zero-based -/
+example :
+    let cfg : Cfg Int := ⟨true, 0⟩
+    let r1 := specRun cfg (fun _ => none) [.fill 0 [⟨1, 3⟩, ⟨0, 2⟩] 7, .ilassign 0 2 [⟨0, 2⟩] [1, 2, 3, 4]] 0
+    let r2 := specRun cfg (fun _ => none) [.fill 0 [⟨1, 3⟩, ⟨0, 2⟩] 7, .assignr 0 1 [⟨0, 3⟩] [1, 2, 3]] 0
+    r1.map (·.exts) = some [⟨1, 3⟩, ⟨0, 2⟩] ∧ r1.map (·.elems) = some [some 1, some 2, some 3, some 4] ∧
+    r2.map (·.exts) = some [⟨0, 1⟩, ⟨0, 3⟩] ∧ r2.map (·.elems) = some [some 1, some 2, some 3] := by
   decide
 
 example : InDomAll (⟨true, 0⟩ : Cfg Int) Pool.empty [.fill 0 [⟨0, 2⟩, ⟨0, 3⟩] 7, .copy 1 0] := by
